@@ -8,6 +8,10 @@ open Zc Zc.Register Zc.GenFacts.Goodbye
 
 variable (lower : String → String)
 
+/-- unregistering removes the entry of that name, whichever object is passed -/
+theorem unregRemove_eq (reg : List Entry) (s : Svc) (oid : Nat) : unregRemove lower reg s oid = regRemove lower reg (key lower s) := by
+  simp [unregRemove, remove_by_key.1, remove_by_key.2]
+
 /-- a dict entry none of whose records is (identical to) a record of `W` -/
 def EClean (W : List Rec) (e : Rec × List Rec) : Prop := hits lower W e.1 = false ∧ ∀ a ∈ e.2, hits lower W a = false
 def DClean (W : List Rec) (d : List (Rec × List Rec)) : Prop := ∀ e ∈ d, EClean lower W e
@@ -480,7 +484,7 @@ theorem step_clean (W : List Rec) (h h' : Host) (b : Block) (out : List Pkt) (hc
       · exact hc.reg e (regRemove_sub lower _ _ _ he)
       · exact hb'
   | unregister s oid now =>
-    simp only [Host.step, unregister_purges, if_true, Option.some.injEq, Prod.mk.injEq] at hs
+    simp only [Host.step, unregRemove_eq, unregister_purges, if_true, Option.some.injEq, Prod.mk.injEq] at hs
     obtain ⟨rfl, rfl⟩ := hs
     refine ⟨⟨qpurge_mono lower _ W _ hc.outq, qpurge_mono lower _ W _ hc.delayq, ?_, ?_, hc.closing⟩, by simp⟩
     · intro t ht
@@ -635,7 +639,7 @@ theorem step_clean (W : List Rec) (h h' : Host) (b : Block) (out : List Pkt) (hc
       subst this
       exact allPkt_ttl0 lower W _ (hc.closing a ham)
   | close =>
-    simp only [Host.step, Option.some.injEq, Prod.mk.injEq] at hs
+    simp only [Host.step, unregRemove_eq, Option.some.injEq, Prod.mk.injEq] at hs
     obtain ⟨rfl, rfl⟩ := hs
     exact ⟨⟨hc.outq, hc.delayq, hc.tasks, hc.reg, hc.closing⟩, by simp⟩
 
@@ -752,7 +756,7 @@ theorem wf_step (h h' : Host) (b : Block) (out : List Pkt) (hw : WF lower h) (hs
             exact ⟨t, ht, by simp [← ho, hne]⟩
         · rfl
   | unregister s oid now =>
-    simp only [Host.step, Option.some.injEq, Prod.mk.injEq] at hs
+    simp only [Host.step, unregRemove_eq, Option.some.injEq, Prod.mk.injEq] at hs
     obtain ⟨rfl, _⟩ := hs
     refine ⟨?_, ?_, hw.closing⟩
     · intro t ht
@@ -854,7 +858,7 @@ theorem wf_step (h h' : Host) (b : Block) (out : List Pkt) (hw : WF lower h) (hs
       · exact hw.closing a ham
     · exact hw.closing x (dropAll_sub _ _ x hx)
   | close =>
-    simp only [Host.step, Option.some.injEq, Prod.mk.injEq] at hs
+    simp only [Host.step, unregRemove_eq, Option.some.injEq, Prod.mk.injEq] at hs
     obtain ⟨rfl, _⟩ := hs
     exact ⟨hw.ttl, hw.coherent, hw.closing⟩
 
@@ -951,7 +955,7 @@ theorem unregister_clean (h h' : Host) (s : Svc) (oid : Nat) (now : Int) (out : 
     (hs : h.step lower (.unregister s oid now) = some (h', out))
     (hsep : ∀ e ∈ h'.reg, ¬ owns lower (withdrawn s (hostShared lower h'.reg s)) e.svc) :
     Clean lower (withdrawn s (hostShared lower h'.reg s)) h' ∧ out = [] := by
-  simp only [Host.step, unregister_purges, if_true, Option.some.injEq, Prod.mk.injEq] at hs
+  simp only [Host.step, unregRemove_eq, unregister_purges, if_true, Option.some.injEq, Prod.mk.injEq] at hs
   obtain ⟨rfl, rfl⟩ := hs
   simp only at hsep ⊢
   refine ⟨⟨qpurge_clean lower _ _, qpurge_clean lower _ _, ?_, hsep, hw.closing⟩, trivial⟩
